@@ -240,7 +240,9 @@ HARNESS['t_map_move_assign'] = lambda: harness_ms_copy('t_map_move_assign', MS)
 CALLEE['t_map_move_assign'] = 'ms_move_assign'
 # rank >= 2, quick tier: the operations in which size() -- now a NAMED product of the extents -- decides how much is allocated / copied
 QUICK_HIGHER = ['vs_ctor_sizes', 'vs_ctor_dims', 'vs_from_c', 'vs_assign_c', 'vs_assign_m', 'vs_copy_assign', 'vs_move_assign', 'vs_resize_sizes', 'vs_resize_dims',
-                'cs_from_v', 'ms_from_v', 'ms_copy_m', 'ms_assign_v', 't_mem_assign_map', 't_map_move_assign']
+                'cs_from_v', 'ms_from_v', 'ms_copy_m', 'ms_assign_v', 't_mem_assign_map', 't_map_move_assign',
+                # tensor_t templates that forward to the storage: the converting constructors and owning = constant view (separate blocks; DFCC contracts)
+                't_mem_from_cmap', 't_mem_from_map', 't_cmap_from_mem', 't_cmap_from_map', 't_map_from_mem', 't_mem_assign_cmap']
 
 
 class RankSpec:
